@@ -1,6 +1,6 @@
 """C03 -- integrate returns exactly the marginal / partition function (structural clauses)."""
 from ..core import Ctx, Ob, PropSpec
-from ..rules import r2, r8, extra, r7i, r4r, r12b, r3
+from ..rules import r2, r8, extra, r7i, r4r, r12b, r3, r11
 
 
 def run(ctx: Ctx) -> list[Ob]:
@@ -18,6 +18,7 @@ def run(ctx: Ctx) -> list[Ob]:
     obs += r4r.operator_rule_shapes(ctx, {'INTEGRATION'})
     obs += [o for o in r12b.param_rewrites(ctx) if 'apply_sum_outer_prod_einsum' in o.construct]
     obs += r3.r3k(ctx)
+    obs += r11.r11k(ctx)
     return obs
 
 
@@ -33,6 +34,7 @@ SPEC = PropSpec(
         "precondition guards fire under every valuation (R8 truth table on the CFG); TorchConstantValueLayer maps from the semiring "
         "selected by log_space. R7i: every comprehension over <circuit>.layer_inputs(<layer>) that re-wires a copied layer in this operator is an order-preserving total map (no `if` filter, not concatenated, not sorted / reversed / made a set): product layers and sum weights are positional. R4r (symbolic shape interpretation of the operator rules, nothing executed): each integration layer rule, applied to abstract operand layers built by interpreting the symbolic layer constructors on symbolic sizes (every parameterisation: probs / logits, optional log-partition, arity 1..3), composes parameter nodes only with operands of the shapes the nodes were built for, hands the resulting layer parameters of exactly the shape its constructor validates (for all sizes, not only when two sizes coincide) and returns a layer with Ko output units. R12b: the optimiser rule that fuses ReduceSum(OuterProduct(..)) -- the parameter graph integrate(multiply(..)) builds for embedding layers -- into an einsum (+ flatten) returns, for ranks 1..3 and every pair of axes, a tensor of the same shape AND the same element order as the graph it replaces (layout typing: a transposed flattening has the right size and the wrong values)."
         " R3k: every constructor hyper-parameter of a concrete symbolic layer (everything but its params and *_factory alternatives) is a key of its config and round-trips through it -- Layer.copyref(), the copy every operator makes of a layer it does not transform, rebuilds the layer from config (a constant layer that loses log_space is read as linear by the next operator)."
+        " R11k: any hand-written exp(x - max(x)) in a torch-side forward makes the shift finite first (an all -inf row is log 0, not nan), as the semiring reductions do."
     ),
     not_decided="the closed forms themselves (numerical), continuous integration, commutation of nested integration.",
     run=run,
